@@ -615,7 +615,7 @@ func TestC17Concurrent(t *testing.T) {
 // sequence range) with the independent implementation must be paid.
 func TestC17HandlerFormat(t *testing.T) {
 	rec := evid.For("C17")
-	runRapid(t, 150, 3000, func(rt *rapid.T) {
+	runRapid(t, 600, 6000, func(rt *rapid.T) {
 		c := rec.Begin()
 		c.Class("handler-format")
 		e := henv.NewL1(henv.L1Options{NoHook: true})
